@@ -4,8 +4,9 @@ Model of the *set-up* half of the logger component, hand-written from the Python
 (`components/logger/factory.py`, `logger.py`, `handlers.py: HandlerFactory.create`, and the three stdlib methods they call:
 `logging.getLogger`, `Logger.setLevel`, `Logger.addHandler`).
 
-NOTE: this model is NOT (yet) tied to the Python by the driver: there is no generated table behind it and no
-correspondence run compares it with the live code.  Every definition quotes the statement(s) it mirrors.
+Tie to the code: the driver op `logsetup` runs `callAll` on factory descriptions, and `harness/zcv/props/c20.py` compares the resulting
+world (level, propagate, handler identities/configurations per logger) with what the real factories did to the `logging` module, on
+every run.  Every definition quotes the statement(s) it mirrors.
 
 The logging world is tiny: a finite map from logger names to `(level, propagate, handlers)` plus an allocation
 counter that gives every handler object created by a handler factory its identity (Python object identity is what
